@@ -135,9 +135,19 @@ impl Ctx {
             return false;
         }
         if self.failure.is_none() {
-            self.failure = Some(Failure { sig: sig.to_string(), msg: msg.into() });
+            let f = Failure { sig: sig.to_string(), msg: msg.into() };
+            // Also where the hang monitor can see it: a case that hangs in
+            // the aftermath of a violation reports that violation.
+            if self.property == self.sig_property(&f.sig) {
+                *PENDING_VIOLATION.lock().unwrap_or_else(|e| e.into_inner()) = Some(format!("{} {}", f.sig, f.msg));
+            }
+            self.failure = Some(f);
         }
         true
+    }
+
+    fn sig_property<'s>(&self, sig: &'s str) -> &'s str {
+        sig.split(':').next().unwrap_or("")
     }
 
     pub fn failed(&self) -> bool {
@@ -199,3 +209,6 @@ pub fn pick_index(raw: u16, len: usize) -> usize {
     }
     ((raw as usize) * len) >> 16
 }
+
+/// The first violation the running case reported (see `Ctx::violation`).
+pub static PENDING_VIOLATION: std::sync::Mutex<Option<String>> = std::sync::Mutex::new(None);
